@@ -1,4 +1,4 @@
-\* C02 aliasing: slice, reshape the (contiguous) result, then write through any of the three views
+\* C03 lock-step: slice, reshape the non-contiguous result (detached copy), then write through any view
 SPECIFICATION Spec
 CONSTANTS
   Shapes <- ShapesA
@@ -10,9 +10,9 @@ CONSTANTS
   AllowNil = FALSE
   ChainOnly = TRUE
   WriteNewest = FALSE
-  AllowCopy = FALSE
+  AllowCopy = TRUE
   EarlyStop = FALSE
   Emit = TRUE
-INVARIANTS ViewsOK Compose ContigIsRun Live
+INVARIANTS ViewsOK ContigIsRun Live
 PROPERTIES ViewOpsPure FootprintExact
 CHECK_DEADLOCK FALSE
